@@ -290,6 +290,25 @@ class SimNonAsync(A.NonAsyncContext):
         return "SimNonAsync(%s)" % self.cid
 
 
+class PlainCtx(object):
+    """Delegates to a context object obtained through asynq's public factory
+    (AsyncScopedValue.override) - no harness subclass, no event log."""
+
+    def __init__(self, real, cid, owner):
+        self.real = real
+        self.cid = cid
+        self.owner = owner
+        self.kind = "na"  # monitors skip it like a NonAsyncContext
+        self.active = False
+        self.entered = False
+
+    def __enter__(self):
+        return self.real.__enter__()
+
+    def __exit__(self, *a):
+        return self.real.__exit__(*a)
+
+
 class AttrTarget(object):
     pass
 
@@ -666,6 +685,12 @@ class RealBackend(object):
     def result(self, val):
         A.result(val)
 
+    def handed_out(self, fut):
+        if isinstance(fut, A.AsyncTask):
+            ci = _inst_of(fut)
+            if ci is not None:
+                ci.shared = True
+
     def dd(self, inst, key):
         """A call of the process-wide @deduplicate() function (C16)."""
         t = DD_FN.asynq(key)
@@ -857,7 +882,7 @@ class RealBackend(object):
                     # only tasks created by this very yield expression: nobody else can hold (and
                     # await) them yet, so they are "first scheduled by being yielded together"
                     if plain and not ci.started and not leaf.is_computed() and ci.parent is inst \
-                            and _ordinal(ci.token) >= inst.yield_n0 and not any(ci is x for x in grp):
+                            and (_ordinal(ci.token) >= inst.yield_n0 or not ci.shared) and not any(ci is x for x in grp):
                         grp.append(ci)
         if len(grp) > 1:
             self.order_groups.append(grp)
@@ -969,6 +994,9 @@ class RealBackend(object):
         if k == "na":
             return SimNonAsync(self, cid, inst)
         if k == "sv":
+            if self.spec.get("plain_overrides"):
+                self.probes["override_via_public_factory"] += 1
+                return PlainCtx(self.svs[spec[1] % len(self.svs)].override(spec[2]), cid, inst)
             return SimOverride(self, cid, inst, self.svs[spec[1] % len(self.svs)], spec[2])
         if k == "attr":
             return SimAttrOverride(self, cid, inst, self.attr, "x", spec[1])
@@ -1063,7 +1091,7 @@ class RealBackend(object):
             self.probes["nested_sched_flush"] += 1
         self.before_after.append(["b", batch, n])
         if "C05" in self.mon:
-            if batch.is_flushed():
+            if batch.is_computed():
                 self.viol("C05", "flush-pending", "scheduler flushes batch %s which is already flushed/cancelled" % bid)
             if not batch.items:
                 self.viol("C05", "flush-nonempty", "scheduler flushes empty batch %s" % bid)
@@ -1220,6 +1248,16 @@ class RealBackend(object):
             self.fired("flush_reenters")
             k2 = plan["reenter"] % self.spec["kinds"]
             self._reenter(kind, ordn, k2)
+        if plan and plan.get("cancel_kind") is not None:
+            k2 = plan["cancel_kind"] % self.spec["kinds"]
+            b2 = self.current[k2]
+            if b2 is not batch and b2 is not None and not b2.is_computed() and b2.items and k2 not in self.debug_kinds:
+                self.fired("batch_cancelled_while_scheduled")
+                e = SimError("ce:%d#%d" % (kind, ordn))
+                self.errors[e.tag] = e
+                b2.cancel(e)
+                rec.setdefault("cancelled", []).append(k2)
+                self.ev("cancelled", b2.bid)
         if plan:
             if plan.get("new_items"):
                 self.fired("flush_creates_items")
